@@ -7,7 +7,7 @@
 #ifndef VC_MAXROWS
 #define VC_MAXROWS ((size_t)1 << 20)
 #endif
-#include "/repo/src/clustering.c"
+#include "clustering.c"
 
 static void mon_decode(void *(*fn)(void *), void *arg)
 {
